@@ -1,19 +1,24 @@
 from vlib import H
 PROPERTY = 'C45'
 LEVEL = 'model_checking'
-CLAIM = 'wip'
+CLAIM = ('bech32/bech32m layer of address encoding, real src/bech32.cpp included as a translation unit: (1) bech32::Encode equals the BIP173/BIP350 reference (hrp + "1" + character-set mapping of data and '
+         'of the reference checksum) for all 5-bit data vectors of length 0 and 8, hrp "bc", both encodings, and the resulting codeword verifies (VerifyChecksum/PolyMod) as its own encoding only; '
+         '(2) CHARSET_REV is exactly the inverse of CHARSET for both letter cases and decodes nothing else; (3) error detection: a valid codeword with 1..4 substituted data/checksum symbols never verifies as the '
+         'encoding it was created with - for ALL payloads at codeword length 8, and for sampled payloads with ALL error patterns of weight <= 4 at codeword length 14 (both encodings). '
+         'NOT covered (did not finish within budget, see report): bech32::Decode control flow (separator search / case rules / limits), error detection beyond 14 symbols (the property asks for 90), '
+         'base58, descriptor checksum, descriptor parsing, BIP32, per-network address typing. ConvertBits<8,5>/<5,8> incl. non-zero padding rejection is exercised in C48 (b32_roundtrip / b32_decode_all).')
 SMALL = ['-D', 'VERIF_ALLOC_MAX=128']
-# XOR-heavy (BCH checksum) equivalence/UNSAT queries: minisat (default) does not finish, cadical/kissat do
+# XOR-heavy (BCH checksum) equivalence/UNSAT queries: minisat (CBMC default) does not finish, cadical/kissat do
 K = dict(objbits=10, diff_runs=16, backends=['cadical', 'kissat'])
-BFN = ['bech32::Encode', 'bech32::Decode', 'bech32::PolyMod', 'bech32::VerifyChecksum', 'bech32::CreateChecksum', 'bech32::PreparePolynomialCoefficients', 'bech32::CheckCharacters']
-RI = '_ZNSt6vectorIiSaIiEE17_M_realloc_insertIJiEEEvN9__gnu_cxx17__normal_iteratorIPiS1_EEDpOT_'
-# CheckCharacters pushes the index of every offending character into a vector<int>; symex cannot see that a well-formed string never does:
-# bound the reallocation copy loops (unwinding assertions prove the bound: 2 for well-formed strings, 18 for the mixed-case variant)
-def ri_unwind(v):
-    k = 18 if 'MIXED' in v else 2
-    return ','.join('%s.%d:%d' % (RI, i, k) for i in range(4))
+BFN = ['bech32::Encode', 'bech32::PolyMod', 'bech32::VerifyChecksum', 'bech32::CreateChecksum', 'bech32::PreparePolynomialCoefficients', 'bech32::EncodingConstant']
 HARNESSES = [
-    H('bech32_encode', 'bech32.cpp', 'h_bech32_encode', variants=[{'NDATA': n, 'ENC': e} for n in (0, 8) for e in (1, 2)], unwind=40, memunwind=40, cbmc=SMALL, timeout=180, functions=BFN, bounds='', **K),
+    H('bech32_encode', 'bech32.cpp', 'h_bech32_encode', variants=[{'NDATA': n, 'ENC': e} for n in (0, 8) for e in (1, 2)], tvariants=[{'NDATA': n, 'ENC': e} for n in (0, 1, 8, 20) for e in (1, 2)],
+      unwind=40, memunwind=40, cbmc=SMALL, timeout=300, functions=BFN, bounds='all 5-bit data vectors of length 0 and 8 (thorough: 0,1,8,20), hrp "bc", bech32 and bech32m', **K),
     H('bech32_tables', 'bech32.cpp', 'h_bech32_tables', unwind=4, timeout=120, functions=['bech32::CHARSET', 'bech32::CHARSET_REV'], bounds='all 32 symbols, all 128 characters', objbits=10, diff_runs=16),
-    H('bech32_errors', 'bech32.cpp', 'h_bech32_errors', variants=[{'NDATA': 2, 'ENC': 1, 'WEIGHT': 4}, {'NDATA': 6, 'ENC': 2, 'WEIGHT': 2}, {'NDATA': 4, 'ENC': 2, 'WEIGHT': 3}], unwind=40, memunwind=40, cbmc=SMALL, timeout=180, functions=BFN, bounds='', **K),
+    H('bech32_errors', 'bech32.cpp', 'h_bech32_errors',
+      variants=[{'NDATA': 2, 'ENC': 1, 'WEIGHT': 4}, {'NDATA': 8, 'ENC': 1, 'WEIGHT': 4, 'SAMPLE': 7}, {'NDATA': 8, 'ENC': 2, 'WEIGHT': 4, 'SAMPLE': 11}],
+      tvariants=[{'NDATA': 2, 'ENC': 1, 'WEIGHT': 4}, {'NDATA': 2, 'ENC': 2, 'WEIGHT': 4}, {'NDATA': 4, 'ENC': 2, 'WEIGHT': 3}, {'NDATA': 8, 'ENC': 1, 'WEIGHT': 4, 'SAMPLE': 7}, {'NDATA': 8, 'ENC': 2, 'WEIGHT': 4, 'SAMPLE': 11}, {'NDATA': 14, 'ENC': 2, 'WEIGHT': 2, 'SAMPLE': 11}],
+      unwind=40, memunwind=40, cbmc=SMALL, timeout=600, functions=BFN,
+      bounds='error patterns = symbolic 5-bit XOR value at every data/checksum position with 1 <= weight <= 4 (hrp untouched): all payloads at codeword length 8; sampled (concrete) payload, all error patterns at codeword length 14, both encodings '
+             '(thorough: all payloads length 10 weight <= 3; sampled length 20 weight <= 2). Codeword length 26 with weight 4 did not finish in 400 s: the 90-character claim of the property is NOT reached.', **K),
 ]
